@@ -65,8 +65,26 @@ class Out:
             self.samples.append(s)
 
 
-def run_symx(job, setup, body, monolithic_upto=150, root_len=0):
-    """explore body under setup; body(ctx, out) is called once per path"""
+STANDIN_ERRORS = (ValueError, IndexError, ZeroDivisionError, OverflowError, KeyError)
+
+
+def _classify_exception(e):
+    """an exception escaping the code under test: raised by the real source (a behaviour to report) or by a stand-in that
+    does not model something (inconclusive)?"""
+    import traceback
+    tb = traceback.extract_tb(e.__traceback__)
+    last = tb[-1]
+    in_standin = '/verif/vlib/' in last.filename or '/verif/harness/' in last.filename
+    if in_standin and not isinstance(e, STANDIN_ERRORS):
+        return 'unsupported'
+    if isinstance(e, (AttributeError, TypeError, NotImplementedError)) and any(k in str(e) for k in ('Arr', 'SInt', 'SReal', 'SBool', 'xnp', 'Garbage', 'vlib', "module 'numpy'", 'SparseDict', 'Mat')):
+        return 'unsupported'
+    return 'raised'
+
+
+def run_symx(job, setup, body, monolithic_upto=150, root_len=0, wit=None):
+    """explore body under setup; body(ctx, out) is called once per path. wit(model) -> witness dict is used when the code
+    under test raises: the exception becomes a candidate violation (replayed on the real build like any other)."""
     out = Out(job)
     deadline = time.time() + job.get('deadline_s', 600) * 0.9
     keep_pc = True
@@ -74,7 +92,24 @@ def run_symx(job, setup, body, monolithic_upto=150, root_len=0):
     def _body(ctx):
         if out.twin and out.candidates:
             return None
-        return body(ctx, out)
+        try:
+            return body(ctx, out)
+        except (symx.Infeasible, symx.Inconclusive, symx.ShimUnsupported, HarnessError):
+            raise
+        except Exception as e:  # noqa
+            kind = _classify_exception(e)
+            import traceback
+            where = traceback.extract_tb(e.__traceback__)[-1]
+            msg = f'{type(e).__name__}: {e} (at {where.filename.split("/")[-1]}:{where.lineno} in {where.name})'
+            if kind == 'unsupported' or wit is None:
+                raise symx.ShimUnsupported(msg)
+            out.obligations += 1
+            if ctx.check() == 'sat' and len(out.candidates) < 40:
+                w = wit(ctx.model())
+                w['label'] = 'raises ' + msg
+                w['raises'] = type(e).__name__
+                out.candidates.append({'witness': w})
+            return None
 
     max_paths = 1 if False else None
     try:
